@@ -340,6 +340,14 @@ def set_prms_refusals(ctx, rule='C12-R6'):
             return a, {c[1] for c in T.walk(a[2][1]) if tag(c) == 'g'}
         return None, set()
     for e in merges:
+        # any type test met on the way (also those that only steer the conversion of the path) has the type on the right
+        for a in T.walk(e.guard):
+            if tag(a) == 'call' and a[1] == ('g', 'builtins.isinstance') and len(a[2]) == 2 and about_path(a[2][1]) \
+                    and not about_path(a[2][0]):
+                n += 1
+                ctx.violation(rule, q, e.node, e.loc(),
+                              f'set_prms tests {T.show(a, maxlen=120)}: the path is on the right of isinstance (TypeError for '
+                              'every path that is not itself a type)', instance='set_prms: isinstance(path, type)')
         admits_str = 0
         alts = T.dnf(e.guard) or [e.guard]
         for alt in alts:
